@@ -21,6 +21,12 @@ pub enum Edit {
     CorruptSig(u16, u16),
     CorruptKey(u16, u16),
     Reverse,
+    /// signature cut or padded to another length (which witness, new length)
+    ResizeSig(u16, u8),
+    /// verification key cut or padded to another length
+    ResizeKey(u16, u8),
+    /// an extra witness by an unrelated key whose signature / key has the wrong length, inserted at a position
+    AddWrongLength(u8, u16, u8, bool),
 }
 
 #[derive(Debug, Clone, Serialize, Deserialize)]
@@ -39,6 +45,9 @@ fn edit() -> impl Strategy<Value = Edit> {
         2 => (any::<u16>(), any::<u16>()).prop_map(|(a, b)| Edit::CorruptSig(a, b)),
         1 => (any::<u16>(), any::<u16>()).prop_map(|(a, b)| Edit::CorruptKey(a, b)),
         1 => Just(Edit::Reverse),
+        1 => (any::<u16>(), prop_oneof![Just(0u8), Just(1), Just(63), Just(65), Just(32), Just(128), any::<u8>()]).prop_map(|(a, l)| Edit::ResizeSig(a, l)),
+        1 => (any::<u16>(), prop_oneof![Just(0u8), Just(1), Just(31), Just(33), Just(64), any::<u8>()]).prop_map(|(a, l)| Edit::ResizeKey(a, l)),
+        1 => (40u8..60, any::<u16>(), prop_oneof![Just(0u8), Just(31), Just(33), Just(63), Just(65)], any::<bool>()).prop_map(|(k, p, l, sig)| Edit::AddWrongLength(k, p, l, sig)),
     ]
 }
 
@@ -87,13 +96,13 @@ fn check(c: &Case, obs: &mut Obs) -> Result<(), Fail> {
                 wl.remove(pvkit::pick_idx(*i, n));
                 edited.push("drop");
             }
-            Edit::CorruptSig(i, b) if n > 0 => {
+            Edit::CorruptSig(i, b) if n > 0 && !wl[pvkit::pick_idx(*i, n)].1.is_empty() => {
                 let w = &mut wl[pvkit::pick_idx(*i, n)];
                 let bit = (*b as usize) % (w.1.len() * 8);
                 w.1[bit / 8] ^= 1 << (bit % 8);
                 edited.push("corrupt-sig");
             }
-            Edit::CorruptKey(i, b) if n > 0 => {
+            Edit::CorruptKey(i, b) if n > 0 && !wl[pvkit::pick_idx(*i, n)].0.is_empty() => {
                 let w = &mut wl[pvkit::pick_idx(*i, n)];
                 let bit = (*b as usize) % (w.0.len() * 8);
                 w.0[bit / 8] ^= 1 << (bit % 8);
@@ -102,6 +111,27 @@ fn check(c: &Case, obs: &mut Obs) -> Result<(), Fail> {
             Edit::Reverse => {
                 wl.reverse();
                 edited.push("reverse");
+            }
+            Edit::ResizeSig(i, l) if n > 0 => {
+                let w = &mut wl[pvkit::pick_idx(*i, n)];
+                if w.1.len() != *l as usize {
+                    w.1.resize(*l as usize, 0x5a);
+                    edited.push("resize-sig");
+                }
+            }
+            Edit::ResizeKey(i, l) if n > 0 => {
+                let w = &mut wl[pvkit::pick_idx(*i, n)];
+                if w.0.len() != *l as usize {
+                    w.0.resize(*l as usize, 0x5a);
+                    edited.push("resize-key");
+                }
+            }
+            Edit::AddWrongLength(k, p, l, sig) => {
+                let kk = key(*k);
+                let (mut pk, mut sg) = (kk.pk.to_vec(), kk.sk.sign(&id).to_bytes().to_vec());
+                if *sig { sg.resize(*l as usize, 0) } else { pk.resize(*l as usize, 0) }
+                wl.insert(pvkit::pick_idx(*p, n + 1), (pk, sg));
+                edited.push("add-wrong-length");
             }
             _ => {}
         }
